@@ -18,7 +18,7 @@ def annots(rng, kinds='%:@', p=0.35):
         return None
     out = []
     for _ in range(rng.choice([1, 1, 2, 3])):
-        out.append(rng.choice(kinds) + rng.choice(['', 'a', 'fld', 'x_1', 'A.b', '0', '%', '@', 'default', 'very_long_annotation_name_0123456789']))
+        out.append(rng.choice(kinds) + rng.choice(['', 'a', 'fld', 'x_1', 'A.b', '0', '%', '@', '%%', 'default', 'very_long_annotation_name_0123456789']))
     return out
 
 
